@@ -1,9 +1,11 @@
-//! C16 component pool and the compiled subset (all permutations of every <=2 / <=3 subset as SET).
+//! C16 component pool (13 components) and the compiled subset (all permutations of every <=2 / <=3
+//! subset as SET; in the compiled types every second pool component is OPTIONAL so that the
+//! presence-bit order is on the wire too).
 
 use crate::schema::*;
 use crate::zoo_def::ZooModule;
 
-/// 10 components, each of a distinct type so that values identify fields.
+/// 13 components, each of a distinct type so that values identify fields.
 pub fn pool() -> Vec<Comp> {
     vec![
         Comp::new("x", Ty::int_r(0, 7)).tagged(Tag::u(30)),
@@ -16,6 +18,9 @@ pub fn pool() -> Vec<Comp> {
         Comp::new("ra", Ty::r("Tapp9")),
         Comp::new("rs", Ty::r("Tsq")),
         Comp::new("rc", Ty::r("Tcho")),
+        Comp::new("rt", Ty::r("Tst")),
+        Comp::new("so", Ty::seq_of(Size::Range(0, Some(3), false), Ty::Bool)),
+        Comp::new("st", Ty::set_of(Size::Range(0, Some(2), false), Ty::Bool)),
     ]
 }
 
@@ -23,6 +28,7 @@ pub fn helper_defs(m: Module) -> Module {
     m.def_tagged("Tapp9", Tag::a(9), Ty::int_r(0, 3))
         .def("Tsq", Ty::seq(vec![Comp::new("z", Ty::Bool)]))
         .def("Tcho", Ty::choice(vec![Alt::new("m", Ty::Bool).tagged(Tag::c(4)), Alt::new("n", Ty::int_r(0, 7)).tagged(Tag::c(1))]))
+        .def("Tst", Ty::Seq { set: true, comps: vec![Comp::new("z", Ty::Bool)], ext_after: None })
 }
 
 /// all ordered selections (permutations of subsets) of size 1..=k from n items
@@ -55,15 +61,21 @@ pub fn make_type(set: bool, ord: &[usize], ext_after: Option<usize>) -> Ty {
     Ty::Seq { set, comps: ord.iter().map(|i| p[*i].clone()).collect(), ext_after }
 }
 
+/// compiled variant: pool components with an odd index are OPTIONAL
+pub fn make_compiled_type(set: bool, ord: &[usize]) -> Ty {
+    let p = pool();
+    Ty::Seq { set, comps: ord.iter().map(|i| if i % 2 == 1 { p[*i].clone().opt() } else { p[*i].clone() }).collect(), ext_after: None }
+}
+
 pub fn modules(out: &mut Vec<ZooModule>) {
-    let all = orderings(10, 3);
+    let all = orderings(pool().len(), 3);
     let quick: Vec<&Vec<usize>> = all.iter().filter(|o| o.len() <= 2).collect();
     let thorough: Vec<&Vec<usize>> = all.iter().filter(|o| o.len() == 3).collect();
     let mut push = |ords: &[&Vec<usize>], prefix: &str, quick: bool| {
         for (ci, ch) in ords.chunks(120).enumerate() {
             let mut m = helper_defs(Module::new(&format!("Z{prefix}{ci}")));
             for o in ch {
-                m = m.def(&type_name(true, o), make_type(true, o, None));
+                m = m.def(&type_name(true, o), make_compiled_type(true, o));
             }
             out.push(ZooModule { id: format!("{prefix}{ci}"), group: "c16", quick, module: m });
         }
@@ -73,7 +85,7 @@ pub fn modules(out: &mut Vec<ZooModule>) {
     // SEQUENCE controls: textual order must be kept
     let mut m = helper_defs(Module::new("Zc16seq"));
     for o in all.iter().filter(|o| o.len() == 2) {
-        m = m.def(&type_name(false, o), make_type(false, o, None));
+        m = m.def(&type_name(false, o), make_compiled_type(false, o));
     }
     out.push(ZooModule { id: "c16seq".into(), group: "c16", quick: true, module: m });
 }
